@@ -54,6 +54,34 @@ def cases(tier, seed):
             flow["cg"] = [float(x) for x in np.round(rng.uniform(-2, 2, 3), 3)]
         cost = sum((s["mesh"]["nx"] - 1) * (s["mesh"]["ny"] - 1) for s in surfs) ** 2 / 400.0 + 1
         out.append(dict(kind="sym" if any_sym else ("rot" if rot else "free"), surfaces=surfs, flow=flow, rotational=rot, _cost=cost))
+    # histories: one live problem taken through several flow conditions (body rate on, exactly zero, on again; angles changed one at a
+    # time); the state must match the reference at every step
+    nseq = 6 if tier == "quick" else 120
+    for k in range(nseq):
+        nsurf = int(rng.choice([1, 2]))
+        surfs = []
+        for s in range(nsurf):
+            spec = M.random_spec(rng, half="full", nx=int(rng.integers(2, 4)), ny=int(rng.integers(3, 7)), odd_full=False)
+            spec["offset"] = [float(np.round(s * rng.uniform(3, 8), 3)), float(np.round(rng.uniform(-1, 1), 3)), float(np.round(s * rng.uniform(0.3, 1.5), 3))]
+            surfs.append(dict(name="s%d" % s, symmetry=False, mesh=spec))
+        base = rand_flow(rng, False)
+        base["cg"] = [float(x) for x in np.round(rng.uniform(-2, 2, 3), 3)]
+        steps = []
+        for j in range(5):
+            f = dict(base)
+            if j in (0, 2, 4):
+                f["omega"] = [float(x) for x in np.round(rng.uniform(-0.5, 0.5, 3), 4)]
+            else:
+                f["omega"] = [0.0, 0.0, 0.0]
+            if j == 2:
+                f["alpha"] = float(np.round(rng.uniform(-15, 15), 3))
+            if j == 3:
+                f["beta"] = float(np.round(rng.uniform(-15, 15), 3))
+            if j == 4:
+                f["cg"] = [float(x) for x in np.round(rng.uniform(-2, 2, 3), 3)]
+            base = f
+            steps.append(f)
+        out.append(dict(kind="seq", surfaces=surfs, steps=steps, rotational=True, _cost=6))
     # corner list: smallest meshes, single panel, flat plate at alpha=beta=0 (zero circulation must come out)
     out.append(dict(kind="corner", surfaces=[dict(name="s0", symmetry=False, mesh=dict(nx=2, ny=2, half="full", span=4.0))],
                     flow=dict(alpha=5.0, beta=3.0, v=10.0, rho=1.0), rotational=False))
@@ -64,8 +92,28 @@ def cases(tier, seed):
     return out
 
 
+def run_seq(c, o):
+    prob = zoo.build_aero(dict(surfaces=c["surfaces"], flow=c["steps"][0], rotational=True), geom=False)
+    surfaces = prob._oas_surfaces
+    nz = False
+    for j, f in enumerate(c["steps"]):
+        for k_ in ("alpha", "beta", "v", "rho", "omega", "cg"):
+            prob.set_val(k_, np.array(f[k_], float))
+        zoo.run(prob)
+        st = vlmcompare.oas_states(prob, "aero.aero_states", surfaces)
+        flow = dict(zoo.FLOW_DEFAULT)
+        flow.update(f)
+        ref = vlmcompare.reference(st, surfaces, flow, rotational=True)
+        nz = bool(vlmcompare.compare(o, st, ref, "vlm", rtol=1e-9, tags=["seq", "step=%d" % j, "omega_zero" if not any(f["omega"]) else "omega_on"])) or nz
+        o.count("history_steps_compared")
+    o.nontrivial = nz
+    return o
+
+
 def run_case(c):
     o = Obs()
+    if c["kind"] == "seq":
+        return run_seq(c, o)
     prob = zoo.build_aero(dict(surfaces=c["surfaces"], flow=c["flow"], rotational=c.get("rotational", False)), geom=False)
     zoo.run(prob)
     surfaces = prob._oas_surfaces
